@@ -59,6 +59,115 @@ theorem quant_structural (M : Trie) (q' : Option Quant) (om2 : Nat) (w : Word) (
     (middleRec { M with quant := q' } om2 i).range = (middleRec M om2 i).range ∧
     (unigramRec { M with quant := q' } w) = unigramRec M w := ⟨rfl, rfl, rfl, rfl⟩
 
+/-- two tables with the same keys and the same extension marks (what quantisation preserves: values change to bin centres,
+the reserved back-off codes keep "extends right", child ranges keep "extends left") -/
+def StructEq (T₁ T₂ : Table) : Prop :=
+  T₁.order = T₂.order ∧ ∀ g, match T₁.lookup g, T₂.lookup g with
+    | some t₁, some t₂ => t₁.extendsLeft = t₂.extendsLeft ∧ t₁.extendsRight = t₂.extendsRight
+    | none, none => True
+    | _, _ => False
+
+def AccStruct {ν : Type} (a₁ a₂ : Acc ν) : Prop :=
+  a₁.ret.ngramLength = a₂.ret.ngramLength ∧ a₁.ret.independentLeft = a₂.ret.independentLeft ∧ a₁.nextUse = a₂.nextUse ∧
+  a₁.backoffOut.length = a₂.backoffOut.length
+
+theorem ts_long (T : Table) (x : Word) (node : List Word) :
+    (tableSearch T).lookupLongest x node = (T.lookup (node ++ [x])).map (·.prob) := rfl
+theorem ts_mid (T : Table) (om2 : Nat) (x : Word) (node : List Word) :
+    (tableSearch T).lookupMiddle om2 x node = ((T.lookup (node ++ [x])).map Score.toFound, node ++ [x]) := rfl
+theorem ts_uni (T : Table) (w : Word) :
+    (tableSearch T).lookupUnigram w = ((match T.lookup [w] with
+     | some t => Score.toFound t
+     | none => { prob := 0, backoff := 0, extendsRight := false, independentLeft := true, rest := 0 }), [w]) := rfl
+
+theorem resume_struct (T₁ T₂ : Table) (h : StructEq T₁ T₂) :
+    ∀ (hist : List Word) (om2 : Nat) (node : List Word) (a₁ a₂ : Acc (List Word)), AccStruct a₁ a₂ →
+      AccStruct (resumeScore (tableSearch T₁) hist om2 node a₁) (resumeScore (tableSearch T₂) hist om2 node a₂) := by
+  intro hist
+  induction hist with
+  | nil => intro om2 node a₁ a₂ ha; simpa [resumeScore] using ha
+  | cons x rest ih =>
+    intro om2 node a₁ a₂ ha
+    obtain ⟨hl, hi, hn, hb⟩ := ha
+    unfold resumeScore
+    rw [← hi]
+    by_cases hil : a₁.ret.independentLeft = true
+    · simp only [hil, if_true]; exact ⟨hl, hi, hn, hb⟩
+    · simp only [hil, Bool.false_eq_true, if_false]
+      have hord : (tableSearch T₁).order = (tableSearch T₂).order := h.1
+      rw [← hord]
+      have hg := h.2 (node ++ [x])
+      by_cases hlong : (om2 == (tableSearch T₁).order - 2) = true
+      · simp only [hlong, if_true, ts_long]
+        cases h1 : T₁.lookup (node ++ [x]) <;> cases h2 : T₂.lookup (node ++ [x]) <;> simp only [h1, h2] at hg
+        · exact ⟨hl, rfl, hn, hb⟩
+        · exact ⟨rfl, rfl, hn, hb⟩
+      · simp only [hlong, Bool.false_eq_true, if_false, ts_mid]
+        cases h1 : T₁.lookup (node ++ [x]) <;> cases h2 : T₂.lookup (node ++ [x]) <;> simp only [h1, h2] at hg
+        · exact ⟨hl, rfl, hn, hb⟩
+        · simp only [Option.map_some]
+          apply ih
+          refine ⟨rfl, ?_, ?_, ?_⟩
+          · simp [Score.toFound, hg.1]
+          · show (if (Score.toFound _).extendsRight = true then _ else _) = (if (Score.toFound _).extendsRight = true then _ else _)
+            simp only [Score.toFound, hg.2, hn]
+            all_goals rfl
+          · simp [hb]
+
+/-- **quant_structural**: a quantised and an unquantised structure (or any two structures) whose tables have the same keys
+and extension marks return the same *structural* results for every state and word: matched n-gram length, left-independence,
+length and words of the out-state.  Only the float values differ. -/
+theorem table_structural (T₁ T₂ : Table) (h : StructEq T₁ T₂) (s : State) (w : Word) :
+    (fullScore (tableSearch T₁) s w).1.ngramLength = (fullScore (tableSearch T₂) s w).1.ngramLength ∧
+    (fullScore (tableSearch T₁) s w).1.independentLeft = (fullScore (tableSearch T₂) s w).1.independentLeft ∧
+    (fullScore (tableSearch T₁) s w).2.length = (fullScore (tableSearch T₂) s w).2.length ∧
+    (fullScore (tableSearch T₁) s w).2.words = (fullScore (tableSearch T₂) s w).2.words := by
+  have hg := h.2 [w]
+  have key : AccStruct
+      (resumeScore (tableSearch T₁) (s.words.take s.length) 0 ((tableSearch T₁).lookupUnigram w).2
+        { ret := { prob := ((tableSearch T₁).lookupUnigram w).1.prob, rest := ((tableSearch T₁).lookupUnigram w).1.rest, ngramLength := 1,
+                   independentLeft := ((tableSearch T₁).lookupUnigram w).1.independentLeft, extendLeft := ((tableSearch T₁).lookupUnigram w).2 },
+          backoffOut := [((tableSearch T₁).lookupUnigram w).1.backoff],
+          nextUse := if ((tableSearch T₁).lookupUnigram w).1.extendsRight then 1 else 0 })
+      (resumeScore (tableSearch T₂) (s.words.take s.length) 0 ((tableSearch T₂).lookupUnigram w).2
+        { ret := { prob := ((tableSearch T₂).lookupUnigram w).1.prob, rest := ((tableSearch T₂).lookupUnigram w).1.rest, ngramLength := 1,
+                   independentLeft := ((tableSearch T₂).lookupUnigram w).1.independentLeft, extendLeft := ((tableSearch T₂).lookupUnigram w).2 },
+          backoffOut := [((tableSearch T₂).lookupUnigram w).1.backoff],
+          nextUse := if ((tableSearch T₂).lookupUnigram w).1.extendsRight then 1 else 0 }) := by
+    have hn : ((tableSearch T₁).lookupUnigram w).2 = ((tableSearch T₂).lookupUnigram w).2 := rfl
+    rw [hn]
+    apply resume_struct T₁ T₂ h
+    have hIL : ((tableSearch T₁).lookupUnigram w).1.independentLeft = ((tableSearch T₂).lookupUnigram w).1.independentLeft := by
+      simp only [ts_uni]
+      cases h1 : T₁.lookup [w] <;> cases h2 : T₂.lookup [w] <;> simp only [h1, h2] at hg
+      · rfl
+      · simp [Score.toFound, hg.1]
+    have hER : ((tableSearch T₁).lookupUnigram w).1.extendsRight = ((tableSearch T₂).lookupUnigram w).1.extendsRight := by
+      simp only [ts_uni]
+      cases h1 : T₁.lookup [w] <;> cases h2 : T₂.lookup [w] <;> simp only [h1, h2] at hg
+      · rfl
+      · simp [Score.toFound, hg.2]
+    exact ⟨rfl, hIL, by show (if _ then _ else _) = (if _ then _ else _); rw [hER], rfl⟩
+  obtain ⟨k1, k2, k3, _⟩ := key
+  simp only [fullScore, scoreExceptBackoff]
+  exact ⟨k1, k2, k3, by rw [k3]⟩
+
+/-- the same through two tries: e.g. `TrieModel` and `QuantArrayTrieModel` built from one ARPA file -/
+theorem quant_structural_tries (fval₁ fval₂ : Nat → Rat) (M₁ M₂ : Trie) (T₁ T₂ : Table) (rng₁ rng₂ : List Word → Node)
+    (rep₁ : Represents fval₁ M₁ T₁ rng₁) (rep₂ : Represents fval₂ M₂ T₂ rng₂) (h : StructEq T₁ T₂) (hN : 2 ≤ T₁.order)
+    (s : State) (w : Word) (hw₁ : w < M₁.bound) (hw₂ : w < M₂.bound)
+    (hs₁ : ∀ x ∈ s.words.take s.length, x < M₁.bound) (hs₂ : ∀ x ∈ s.words.take s.length, x < M₂.bound) :
+    (fullScore (search fval₁ M₁) s w).1.ngramLength = (fullScore (search fval₂ M₂) s w).1.ngramLength ∧
+    (fullScore (search fval₁ M₁) s w).1.independentLeft = (fullScore (search fval₂ M₂) s w).1.independentLeft ∧
+    (fullScore (search fval₁ M₁) s w).2.length = (fullScore (search fval₂ M₂) s w).2.length ∧
+    (fullScore (search fval₁ M₁) s w).2.words = (fullScore (search fval₂ M₂) s w).2.words := by
+  have r₁ := trie_refines fval₁ M₁ T₁ rng₁ rep₁ hN s w hw₁ hs₁
+  have r₂ := trie_refines fval₂ M₂ T₂ rng₂ rep₂ (by rw [← h.1]; exact hN) s w hw₂ hs₂
+  have t := table_structural T₁ T₂ h s w
+  rw [r₁.2.1, r₁.2.2.1, r₁.2.2.2.2, r₂.2.1, r₂.2.2.1, r₂.2.2.2.2]
+  exact t
+
+
 namespace ExamplePlain
 /-- the bytes of the file `build_binary` (trie) wrote for the example model, as a little-endian number (400 bytes, no vocabulary strings) -/
 def fileMem : Nat := 761476677160407308217975864470614751727348382627115423152470112628619092959904902344675923764049775541790675653369984681341251354178973324354704184449717076722008694969161737295398178929897496965487866245448340550389208910674906323611120178634150232100142902384119149281423817629901806019307788963460722240025464104440056090565264927775694327040793530331603726469758391775973573702672575613604224006169537101039515225289305070749463163740316790297432875553306897306048874838216536383933780836900833855196732058659853426422352541870751737809333562445279187834910323583288795471349083209521711528229418145962980659530881310595584099967686084481395691756683777524133653575249628401438152329790416478872466871534668806747242521596050075560697902588037388867013809162506185706361296025996415967684280654828443486150338842539302920603524685068756466273752184813385180397354827530089166927695978839648650761967352628834366123126370735320429
